@@ -830,6 +830,14 @@ def draw_single(ctx, mods, r, cid, nmax):
                          "adaptive_neighborhood_size"],
                         p=[.4, .12, .2, .18, .1]))
     normalize = (not exact) and r.random() < 0.2
+    if normalize and np.ndim(x) == 2 and x.shape[1] >= 2 and \
+            r.random() < 0.35:
+        # one channel is exactly constant (stuck sensor, masked channel):
+        # centred to zero, it contributes nothing to any distance
+        x = np.array(x, dtype=float)
+        x[:, int(r.integers(0, x.shape[1]))] = float(
+            r.choice([0.0, 1.0, 2.0, 0.5, -3.0]))
+        ctx.count("normalized_with_a_constant_channel")
     missing = False
     if r.random() < 0.22 and n >= 2:
         missing = True
@@ -929,17 +937,32 @@ def draw_cross(ctx, mods, r, cid, nmax):
         d = int(r.integers(1, 4))
     x = gen_series(r, nx, d, style)
     y = gen_series(r, ny, d, style)
+    # the optional normalisation (continuous data): each series separately,
+    # a constant channel is centred and otherwise left alone
+    normalize = (not exact) and min(nx, ny) >= 2 and r.random() < 0.3
+    if normalize:
+        ctx.count("crp_normalized")
+        for a in (x, y):
+            if d >= 2 and r.random() < 0.35:
+                a[:, int(r.integers(0, d))] = float(
+                    r.choice([0.0, 1.0, 2.0, 0.5, -3.0]))
+                ctx.count("normalized_with_a_constant_channel")
     if d == 1 and r.random() < 0.5:
         x, y = x.reshape(-1), y.reshape(-1)
-    X = ref.as2d(ref.f32(x))
-    Y = ref.as2d(ref.f32(y))
+    X = state_matrix(x, None, None, normalize)
+    Y = state_matrix(y, None, None, normalize)
     if dim is not None:
         X, Y = ref.embed(X[:, 0], dim, tau), ref.embed(Y[:, 0], dim, tau)
     D = ref.distance_matrix(X, Y, metric)
     mode = "threshold" if r.random() < 0.6 else "recurrence_rate"
-    tol = 0.0 if exact else 1e-9
-    value, _ = draw_value(r, mode, D, 0, exact, tol, None, False)
-    tags = []
+    if normalize:
+        mode = "threshold"
+    tol = 0.0 if exact else (1e-4 if normalize else 1e-9)
+    value, ok_v = draw_value(r, mode, D, 0, exact, tol, None, False)
+    if normalize and not ok_v:
+        ctx.count("rejected")
+        return
+    tags = ["normalize"] if normalize else []
     if dim is not None:
         tags.append("embedded")
     if X.shape[0] != Y.shape[0]:
@@ -950,6 +973,8 @@ def draw_cross(ctx, mods, r, cid, nmax):
     kw = {mode: value}
     if dim is not None:
         kw.update(dim=dim, tau=tau)
+    if normalize:
+        kw["normalize"] = True
     ok, obj = ctx.call(mods[cname], held(ctx, r, x), held(ctx, r, y), metric=metric,
                        silence_level=3, **kw)
     ctx.evals()
@@ -979,8 +1004,11 @@ def draw_cross(ctx, mods, r, cid, nmax):
     if ok:
         ctx.count("distance_compared")
         Dlib = np.asarray(Dlib)
+        # (after normalisation the library's mean / std are evaluated in
+        #  the precision of the caller's array: 1e-5 instead of 1e-12)
         if Dlib.shape != D.shape or not np.all(
-                np.abs(Dlib - D) <= (0.0 if exact else 1e-12) *
+                np.abs(Dlib - D) <= (0.0 if exact else
+                                     1e-5 if normalize else 1e-12) *
                 np.maximum(1.0, np.abs(D))):
             ctx.violation(sig(cname, "distance_matrix", "differs",
                               tags + [metric]),
@@ -1037,7 +1065,8 @@ def draw_cross(ctx, mods, r, cid, nmax):
                        eps2, tol)
         ok, Dl = ctx.call(obj.distance_matrix, metric)
         if ok and (np.shape(Dl) != D2.shape or not np.all(
-                np.abs(np.asarray(Dl) - D2) <= (0.0 if exact else 1e-12) *
+                np.abs(np.asarray(Dl) - D2) <= (
+                    0.0 if exact else 1e-5 if normalize else 1e-12) *
                 np.maximum(1.0, np.abs(D2)))):
             ctx.violation(sig(cname, "distance_matrix", "differs",
                               stags + [metric]),
@@ -1125,6 +1154,12 @@ def draw_joint(ctx, mods, r, cid, nmax):
     mode = str(r.choice(["threshold", "threshold_std", "recurrence_rate"],
                         p=[.5, .15, .35]))
     normalize = (not exact) and r.random() < 0.15
+    if normalize:
+        for a in (x, y):
+            if a.ndim == 2 and a.shape[1] >= 2 and r.random() < 0.35:
+                a[:, int(r.integers(0, a.shape[1]))] = float(
+                    r.choice([0.0, 1.0, 2.0, 0.5, -3.0]))
+                ctx.count("normalized_with_a_constant_channel")
     tol = 0.0 if exact else (1e-4 if normalize else
                              1e-5 if mode == "threshold_std" else 1e-9)
     _, aux = joint_reference(x, y, metric, "threshold", (1.0, 1.0), dim, tau,
